@@ -26,6 +26,7 @@ type c20State struct {
 	mode        string
 	ante        *c20Ante
 	priv        *c20Priv
+	stored      *c20Stored
 	trace       []string // op lines of the current trace (for replays)
 	hdr         []string // reset + header lines of the current trace
 	seq         []string // op-kind/outcome sequence of the trace (class key)
@@ -35,6 +36,8 @@ type c20State struct {
 	extAllDone  bool
 	pstats      map[string]int    // per-kind counters over all priv traces
 	ctrlErr     map[string]string // last dry-run error per kind
+	extHit      map[string]bool   // governance-only types probed with content the authority gets accepted
+	extMiss     map[string]string // … and those whose content the authority does not get accepted (last error)
 }
 
 func c20Hash(s string) string {
@@ -67,11 +70,20 @@ func (s *c20State) exec(line string) string {
 			s.ante = newC20Ante(s.share)
 		case "priv":
 			s.priv = newC20Priv(s)
+		case "stored":
+			s.stored = newC20Stored(s)
 		}
 		return "ok"
-	case "ty":
+	case "ty", "xo":
 		s.hdr = append(s.hdr, line)
 		return "ok"
+	case "stored":
+		return s.execStored(line, f)
+	case "rtx":
+		if s.ante == nil {
+			return "bad-op"
+		}
+		return s.execRtx(line, f)
 	case "tx":
 		if s.ante == nil {
 			return "bad-op"
@@ -87,7 +99,7 @@ func (s *c20State) exec(line string) string {
 			return "bad-op"
 		}
 		return s.execWrappers(line)
-	case "own", "fix", "priv", "ext", "signer":
+	case "own", "fix", "priv", "ext", "signer", "rows":
 		if s.priv == nil {
 			return "bad-op"
 		}
@@ -278,7 +290,7 @@ func c20min(a, b int) int {
 var (
 	c20Wrappers = []string{"E", "G", "P"}
 	c20Benign   = []string{"S", "D", "L", "C", "Q"}
-	c20Disabled = []string{"X", "U", "V1", "V2", "V3"}
+	c20Disabled = []string{"X", "U", "M", "V1", "V2", "V3"}
 )
 
 func c20pick(r *Rng, xs []string) string { return xs[r.Intn(len(xs))] }
@@ -427,12 +439,15 @@ func TestC20(t *testing.T) {
 		for _, l := range s.ante.headerLines() {
 			run(l)
 		}
+		for _, l := range c20XoLines() {
+			run(l)
+		}
 	}
 	startAnte()
 	run("wrappers")
 	// exhaustive chains
 	chainDepth := r.N(5, 7)
-	leafs := []*c20Node{leaf("X"), leaf("U"), leaf("V1"), leaf("V2"), leaf("V3"), leaf("S"),
+	leafs := []*c20Node{leaf("X"), leaf("U"), leaf("M"), leaf("V1"), leaf("V2"), leaf("V3"), leaf("S"),
 		grantOf("U"), grantOf("V1"), grantOf("X"), grantOf("S"), wrap("E"), {ty: "E", auth: "-", bad: true}}
 	for d := 0; d <= chainDepth; d++ {
 		startAnte()
@@ -478,6 +493,12 @@ func TestC20(t *testing.T) {
 			run("path " + strings.Join(path, ",") + strings.TrimPrefix(line, "tx"))
 		}
 	}
+
+	// ---- part 1b: every route of NewAnteHandler (c20_routes_test.go)
+	c20RouteTraces(s, run, startAnte)
+
+	// ---- part 1c: stored proposals (c20_stored_test.go)
+	c20StoredTraces(s, run)
 
 	// ---- part 2: authority / owner guards
 	nTraces := r.N(24, 300)
